@@ -17,10 +17,10 @@ import (
 // C20 (Bigtable half) — no request or request mix can crash or wedge the service.
 
 type C20Probe struct {
-	FailSend int `json:"failsend,omitempty"` // >0: a multi-message ReadRows whose client goes away at this Send
-	Op  *bt.Op `json:"op,omitempty"`  // structure-level perturbation
-	RPC string `json:"rpc,omitempty"` // byte-level: rpc + payload
-	Raw bt.BS  `json:"raw,omitempty"`
+	FailSend int    `json:"failsend,omitempty"` // >0: a multi-message ReadRows whose client goes away at this Send
+	Op       *bt.Op `json:"op,omitempty"`       // structure-level perturbation
+	RPC      string `json:"rpc,omitempty"`      // byte-level: rpc + payload
+	Raw      bt.BS  `json:"raw,omitempty"`
 }
 
 type C20BTCase struct {
